@@ -348,6 +348,7 @@ class Gen:
         self.refs = []
         self.fault_applied = False
         self.anon_count = {}
+        self._fx = None
         self.main = Mod("m.emb")
         self.mods = [self.main]
         n_imp = rng.choice([0, 0, 1, 1, 2])
@@ -430,13 +431,29 @@ class Gen:
 
     def build_field(self, t, depth):
         r = self.r
+        host = t.nearest_declared()
         taken = [f.name for f in t.fields] + [p[0] for p in t.params]
+        avoid = r.random() > 0.06            # mostly avoid accidental duplicates; some are wanted
+        if avoid:
+            taken += [f.abbr for f in t.fields if f.abbr]
+            for f in t.fields:
+                if f.kind == "anon":
+                    taken += [g.name for g in f.typ.fields] + [g.abbr for g in f.typ.fields if g.abbr]
+            if t.anon:
+                up = t.lex_parent
+                taken += [f.name for f in up.fields] + [f.abbr for f in up.fields if f.abbr] + [p[0] for p in up.params]
         name = self.fresh(FIELD_NAMES, taken)
         fd = Fd(name, t)
         if r.random() < 0.3:
-            fd.abbr = self.fresh(ABBRS, taken + [f.abbr for f in t.fields if f.abbr])
+            fd.abbr = self.fresh(ABBRS, taken + [name] + [f.abbr for f in t.fields if f.abbr])
         k = r.random()
-        host = t.nearest_declared()
+        if avoid and 0.63 <= k < 0.80 and not host.is_mod and camel(name) in [u.name for u in host.subtypes()]:
+            free = [n for n in FIELD_NAMES if n not in taken and camel(n) not in [u.name for u in host.subtypes()]]
+            if free:
+                name = r.choice(free)
+                fd.name = name
+            else:
+                k = 0.0
         if k < 0.35:
             fd.kind, fd.typ = "scalar", r.choice(["UInt", "UInt", "Int", "Bcd"] if t.kind != "bits" else ["UInt", "Flag"])
         elif k < 0.55 and self.all_types:
@@ -469,8 +486,8 @@ class Gen:
                 tk = [f.name for f in s.fields] + [f.name for f in t.fields if f.kind != "anon"] + taken
                 sub = Fd(self.fresh(FIELD_NAMES, tk), s)
                 if r.random() < 0.3:
-                    sub.abbr = self.fresh(ABBRS, tk + [f.abbr for f in t.fields + s.fields if f.abbr])
-                if r.random() < 0.3:
+                    sub.abbr = self.fresh(ABBRS, tk + [sub.name] + [f.abbr for f in t.fields + s.fields if f.abbr])
+                if r.random() < 0.3 and (not avoid or camel(sub.name) not in [u.name for u in host.subtypes()]):
                     sub.kind = "inline"
                     e = Ty("enum", camel(sub.name), s, inline=True)
                     e.decl_parent = host
@@ -514,6 +531,12 @@ class Gen:
         for i in range(1, len(tp)):
             if tp[:i] == sp[:i] and len(sp) >= i:     # tp[i] lives in an enclosing type (or the own type)
                 opts.append(tp[i:])
+        if r.random() > 0.08:
+            probe = Ref("type", ["?"], site)
+            good = [o for o in opts if len(self.oracle.visible(probe, o[0])) == 1]
+            if not good:
+                return None
+            return r.choice(good)
         return r.choice(opts)
 
     def make_references(self):
@@ -650,28 +673,73 @@ class Gen:
         t.fields.append(fd)
         return fd, rf
 
+    def fixture(self):
+        """a struct of known shape in the main module, for faults that need a particular context:
+
+            struct Fx(pf: UInt:8):
+              struct Fn:
+                0 [+1]  UInt  na (nb)
+              0 [+1]  UInt  fa (fb)
+              1 [+1]  Fn  fc
+              2 [+1]  UInt:8[1]  fd
+              let fe = 7
+        """
+        if self._fx is not None:
+            return self._fx
+        m = self.main
+        names = [t.name for t in m.types]
+        nm = "Fx" if "Fx" not in names else "Fxx"
+        t = Ty("struct", nm, m)
+        t.decl_parent = m
+        inner = Ty("struct", "Fn", t)
+        inner.decl_parent = t
+        f = Fd("na", inner)
+        f.abbr, f.kind, f.typ = "nb", "scalar", "UInt"
+        f.tref = self.new_ref("type", ["UInt"], inner)
+        inner.fields.append(f)
+        inner.index = len(self.all_types)
+        self.all_types.append(inner)
+        t.declared.append(inner)
+        t.params = [("pf", "UInt:8", self.new_ref("type", ["UInt"], t))]
+        fa = Fd("fa", t)
+        fa.abbr, fa.kind, fa.typ = "fb", "scalar", "UInt"
+        fa.tref = self.new_ref("type", ["UInt"], t)
+        fc = Fd("fc", t)
+        fc.kind, fc.typ = "typed", inner
+        fc.tref = self.new_ref("type", ["Fn"], t)
+        fd = Fd("fd", t)
+        fd.kind, fd.typ = "array", "UInt"
+        fd.tref = self.new_ref("type", ["UInt"], t)
+        fe = Fd("fe", t)
+        fe.kind, fe.expr = "vconst", "7"
+        t.fields = [fa, fc, fd, fe]
+        t.index = len(self.all_types)
+        self.all_types.append(t)
+        m.types.append(t)
+        self._fx = t
+        return t
+
     def apply_reference_faults(self):
         r = self.r
         f = self.fault
         if f is None or self.fault_applied:
             return
         ts = self.structs_main()
-        if not ts:
-            return
-        t = r.choice(ts)
+        use_fx = (not ts) or r.random() < 0.5
+        t = self.fixture() if use_fx else r.choice(ts)
         named = [x for x in t.fields if x.kind != "anon"]
         if f == "undefined-head":
-            self.add_virtual(t, "field", ["zz"] + (["xa"] if r.random() < 0.3 else []))
+            self.add_virtual(t, "field", r.choice([["zz"], ["zz", "xa"], ["this"]]))
         elif f == "undefined-type":
-            fd = Fd(self.fresh(FIELD_NAMES, [x.name for x in named]), t)
+            fd = Fd(self.fresh(FIELD_NAMES, [x.name for x in named] + [p[0] for p in t.params]), t)
             fd.kind, fd.typ, fd.typ_resolved = "typed", None, ("unresolved",)
-            fd.tref = self.new_ref("type", r.choice([["Zz"], [t.name, "Zz"], ["Zz", "Aa"]]), t)
-            fd.spelled_only = True
+            fd.tref = self.new_ref("type", r.choice([["Zz"], [t.name, "Zz"], ["Zz", "Aa"], ["ia", "Zz"]]), t)
             t.fields.append(fd)
         elif f == "undefined-member":
             c = [x for x in named if x.kind in ("typed", "inline") and x.typ.kind != "enum"]
             if not c:
-                return
+                t = self.fixture()
+                c = [x for x in t.fields if x.name == "fc"]
             self.add_virtual(t, "field", [r.choice(c).name, "zz"])
         elif f == "dup-field":
             fd = Fd(r.choice(named).name, t)
@@ -679,24 +747,23 @@ class Gen:
             fd.tref = self.new_ref("type", ["UInt"], t)
             t.fields.append(fd)
         elif f == "dup-abbr":
-            fd = Fd(self.fresh(FIELD_NAMES, [x.name for x in named]), t)
+            fd = Fd(self.fresh(FIELD_NAMES, [x.name for x in named] + [p[0] for p in t.params]), t)
             fd.kind, fd.typ, fd.typ_resolved = "scalar", "UInt", None
             fd.abbr = r.choice(named).name
             fd.tref = self.new_ref("type", ["UInt"], t)
             t.fields.append(fd)
         elif f == "dup-param-field":
-            c = [u for u in ts if u.kind == "struct" and not u.inline]
-            if not c:
-                return
-            t = r.choice(c)
+            if t.kind != "struct" or t.inline:
+                t = self.fixture()
             n = r.choice([x for x in t.fields if x.kind != "anon"]).name
             t.params.append((n, "UInt:8", self.new_ref("type", ["UInt"], t)))
         elif f == "two-scopes-type":
-            # a type name visible from an enclosing type and from the module (or two enclosing types)
-            c = [u for u in self.all_types if u.mod() is self.main and not u.is_mod and not u.decl_parent.is_mod
+            # a type name visible from an enclosing type and from the module
+            c = [u for u in self.all_types if u.mod() is self.main and not u.decl_parent.is_mod
                  and u.decl_parent.kind != "enum" and not u.anon]
             if not c:
-                return
+                self.fixture()
+                c = [u for u in self.all_types if u.name == "Fn"]
             u = r.choice(c)                    # nested type u; make a module-level namesake
             if u.name not in [x.name for x in self.main.types]:
                 e = Ty("enum", u.name, self.main)
@@ -706,9 +773,7 @@ class Gen:
                 self.all_types.append(e)
                 self.main.types.append(e)
             host = u.decl_parent
-            if host.kind == "enum":
-                return
-            fd = Fd(self.fresh(FIELD_NAMES, [x.name for x in host.fields if x.kind != "anon"] + [p[0] for p in host.params]), host)
+            fd = Fd(self.fresh(FIELD_NAMES, [x.name for x in host.fields] + [p[0] for p in host.params]), host)
             fd.kind, fd.typ, fd.typ_resolved = "typed", u, None
             fd.tref = self.new_ref("type", [u.name], host)
             host.fields.append(fd)
@@ -721,97 +786,72 @@ class Gen:
             self.main.types.append(e)
         elif f == "two-scopes-alias-field":
             # the import alias is called xa; a field xa is referenced inside its struct
-            c = [u for u in ts if "xa" in [x.name for x in u.fields if x.kind != "anon"]]
+            c = [u for u in ts if "xa" in [x.name for x in u.fields]]
             if c:
                 t = r.choice(c)
             else:
+                t = self.fixture()
                 fd = Fd("xa", t)
                 fd.kind, fd.typ, fd.typ_resolved = "scalar", "UInt", None
                 fd.tref = self.new_ref("type", ["UInt"], t)
-                if "xa" in [p[0] for p in t.params] or "xa" in [x.abbr for x in t.fields]:
-                    return
                 t.fields.append(fd)
             self.add_virtual(t, "field", ["xa"])
         elif f in ("abbr-outside-nested", "outer-field-from-nested"):
-            c = [u for u in ts if u.declared and any(x.abbr for x in u.fields if x.kind != "anon")] if f == "abbr-outside-nested" \
-                else [u for u in ts if u.declared]
-            c = [u for u in c if any(d.kind != "enum" for d in u.declared)]
-            if not c:
-                return
-            t = r.choice(c)
-            inner = r.choice([d for d in t.declared if d.kind != "enum"])
-            if f == "abbr-outside-nested":
-                n = r.choice([x.abbr for x in t.fields if x.kind != "anon" and x.abbr])
-            else:
-                n = r.choice([x.name for x in t.fields if x.kind != "anon"])
-            if n in [e.name for e in self.oracle.entries(inner)]:
-                return
-            self.add_virtual(inner, "field", [n])
+            t = self.fixture()
+            inner = t.declared[0]
+            self.add_virtual(inner, "field", ["fb" if f == "abbr-outside-nested" else "fa"])
         elif f == "abbr-outside-member":
             c = []
             for u in ts:
                 for x in u.fields:
-                    if x.kind in ("typed", "inline") and x.typ.kind != "enum":
+                    if x.kind in ("typed", "inline") and x.typ is not None and x.typ.kind != "enum":
                         ab = [y.abbr for y in x.typ.fields if y.kind != "anon" and y.abbr]
-                        ab = [a for a in ab if a not in [y.name for y in self.oracle.fields_of(x.typ)]]
+                        ab = [a for a in ab if a not in [y.name for y in self.oracle.fields_of(x.typ)]
+                              and a not in [p[0] for p in x.typ.params]]
                         if ab:
                             c.append((u, x, ab))
-            if not c:
-                return
-            u, x, ab = r.choice(c)
-            self.add_virtual(u, "field", [x.name, r.choice(ab)])
+            if c and not use_fx:
+                u, x, ab = r.choice(c)
+                self.add_virtual(u, "field", [x.name, r.choice(ab)])
+            else:
+                self.add_virtual(self.fixture(), "field", ["fc", "nb"])
         elif f == "abbr-outside-static":
-            c = []
-            for u in self.all_types:
-                if u.kind in ("struct", "bits") and not u.anon:
-                    ab = [y.abbr for y in self.oracle.fields_of(u) if y.kind != "anon" and y.abbr]
-                    ab = [a for a in ab if a not in [y.name for y in self.oracle.fields_of(u)]]
-                    if ab:
-                        c.append((u, ab))
-            r.shuffle(c)
-            for (u, ab) in c:
-                sp = self.spell_type(t, u)
-                if sp:
-                    fd, rf = self.add_virtual(t, "const", sp + [r.choice(ab)])
-                    rf.fault = "abbr-outside-static"
-                    return
-            return
+            t = self.fixture()
+            fd, rf = self.add_virtual(t, "const", ["Fn", "nb"])
+            rf.fault = "abbr-outside-static"
         elif f == "member-of-array":
             c = [x for x in named if x.kind == "array"]
             if not c:
-                fd = Fd(self.fresh(FIELD_NAMES, [x.name for x in named] + [p[0] for p in t.params]), t)
-                fd.kind, fd.typ, fd.typ_resolved = "array", "UInt", None
-                fd.tref = self.new_ref("type", ["UInt"], t)
-                t.fields.append(fd)
-                c = [fd]
+                t = self.fixture()
+                c = [x for x in t.fields if x.name == "fd"]
             self.add_virtual(t, "field", [r.choice(c).name, "xa"])
         elif f == "member-of-scalar":
             c = [x for x in named if x.kind == "scalar"]
             if not c:
-                return
+                t = self.fixture()
+                c = [x for x in t.fields if x.name == "fa"]
             self.add_virtual(t, "field", [r.choice(c).name, "xa"])
         elif f == "member-of-virtual":
-            c = [x for x in named if x.kind in ("vconst",)]
+            c = [x for x in named if x.kind == "vconst"]
             if not c:
-                fd = Fd(self.fresh(["va", "vb", "vc"], [x.name for x in named] + [p[0] for p in t.params]), t)
-                fd.kind, fd.expr, fd.typ_resolved = "vconst", "7", None
-                t.fields.append(fd)
-                c = [fd]
+                t = self.fixture()
+                c = [x for x in t.fields if x.name == "fe"]
             self.add_virtual(t, "field", [r.choice(c).name, "xa"])
         elif f == "field-attr-other-field":
             c = [x for x in named if x.kind == "scalar" and x.attr is None]
-            others = [x for x in named]
-            if not c or len(others) < 2:
-                return
+            if not c or len(named) < 2:
+                t = self.fixture()
+                named = list(t.fields)
+                c = [x for x in named if x.name == "fa"]
             x = r.choice(c)
-            o = r.choice([y for y in others if y is not x])
+            o = r.choice([y for y in named if y is not x])
             x.attr = self.new_ref("field", [o.name], t, attr_field=x)
         elif f == "param-member":
             c = [u for u in ts if u.params]
-            if not c:
-                return
-            t = r.choice(c)
+            t = r.choice(c) if c and not use_fx else self.fixture()
             self.add_virtual(t, "field", [t.params[0][0], "xa"])
+        else:
+            return
         self.fault_applied = True
 
     # -- text ----------------------------------------------------------------------
